@@ -31,6 +31,8 @@ def make_device_class():
 
         def attach_memory(self, device_memory):
             self.memory = device_memory
+            if self.hook:
+                self.hook(-1, 'attach', self)
 
         def read_bit(self):
             if self.n >= len(self.answers):
